@@ -344,6 +344,45 @@ def random_token_seq(r):
 
 
 # ---------------------------------------------------------------------------------------------
+class ScannerHook:
+    """Invariants of the scanner's token queue after every fetch (evidence: a discrepancy marks where the boundary oracle
+    should look, it is not a verdict)."""
+
+    def __init__(self, ctx):
+        self.ctx = ctx
+        S_ = yaml.scanner.Scanner
+        orig = S_.__dict__.get('fetch_more_tokens')
+        if orig is None:
+            ctx.stat('hook_missing:fetch_more_tokens')
+            return
+        hook = self
+
+        def fetch_more_tokens(sc):
+            r = orig(sc)
+            hook.after(sc)
+            return r
+        S_.fetch_more_tokens = fetch_more_tokens
+
+    def after(self, sc):
+        ctx = self.ctx
+        ctx.stat('hook_evaluations')
+        try:
+            toks = sc.tokens
+            ctx.statmax('max:token_queue', len(toks))
+            idx = [t.start_mark.index for t in toks]
+            if any(a > b for a, b in zip(idx, idx[1:])):
+                ctx.stat('hook_discrepancy:queue_not_ordered_by_start')
+            ind = list(sc.indents) + [sc.indent]
+            if ind[0] != -1 or any(a >= b for a, b in zip(ind, ind[1:])):
+                ctx.stat('hook_discrepancy:indent_stack_not_increasing')
+            for k in sc.possible_simple_keys.values():
+                if k.token_number < sc.tokens_taken:
+                    ctx.stat('hook_discrepancy:simple_key_points_at_a_released_token')
+                    break
+        except Exception:
+            ctx.stat('hook_unreadable')
+
+
 def gen_input(r):
     c = r.random()
     if c < 0.35:
@@ -372,6 +411,8 @@ def gen_input(r):
 
 def run(spec, ctx):
     k = spec['kind']
+    if k in ('inputs', 'exh'):
+        ScannerHook(ctx)
     if k == 'inputs':
         r = random.Random(core.h64('C09', spec['seed'], spec['shard']))
         if spec['shard'] == 0:
@@ -426,7 +467,9 @@ def summarize(agg, tier):
     out = {'exhaustive': False,
            'exhaustive_slices': 'inputs: all strings over %r up to length %d; parser: all sequences over the 18 token kinds up to length %d (complete iff the *_shards_done counters equal the planned shard counts)' % (
                ''.join(EXH_ALPHA), 4 if tier == 'quick' else 5, 4 if tier == 'quick' else 5),
-           'stub_accepted': st.get('stub:accepted', 0), 'stub_rejected': st.get('stub:rejected', 0)}
+           'stub_accepted': st.get('stub:accepted', 0), 'stub_rejected': st.get('stub:rejected', 0),
+           'scanner_hook': {'evaluations': st.get('hook_evaluations', 0), 'token_queue_high_water_mark': st.get('max:token_queue', 0),
+                            'discrepancies': {k.split(':', 1)[1]: v for k, v in st.items() if k.startswith('hook_discrepancy:')}}}
     if not st.get('scans') or not st.get('stub_sequences'):
         out['_inconclusive'] = 'the mark monitor or the stub-driven parser observed nothing'
     elif not st.get('stub:accepted') or not st.get('grammar_checks'):
